@@ -5,6 +5,7 @@ import (
 	"go/ast"
 	"go/token"
 	"go/types"
+	"strings"
 )
 
 const (
@@ -157,6 +158,52 @@ func mergeRules(c *Ctx, r4 string) {
 			}
 		}
 		c.Check(len(plain) == 0, r4, "refetchAndMerge: no key-only lookup in the replay", f.Lit.Pos(), "none", fmt.Sprintf("key-only Find at %v", plain), nil)
+	}
+	// the replay runs on freshly fetched nodes only: every transaction-local node cache of the backend node
+	// repository (map- or Cache-typed fields) and the tracked-items map are reset before the first replayed action
+	{
+		var head *GNode
+		for _, n := range g.Nodes {
+			if n.RangeHead != nil && (head == nil || n.RangeHead.Pos() < head.RangeHead.Pos()) {
+				head = n
+			}
+		}
+		nrb := w.Object("common", "nodeRepositoryBackend").Type().Underlying().(*types.Struct)
+		for i := 0; i < nrb.NumFields(); i++ {
+			fld := nrb.Field(i)
+			isCache := false
+			switch fld.Type().Underlying().(type) {
+			case *types.Map:
+				isCache = true
+			}
+			if strings.Contains(fld.Type().String(), "cache.Cache[") {
+				isCache = true
+			}
+			if !isCache {
+				continue
+			}
+			reset := func(n *GNode) bool {
+				// x.fld = make(...) / nil, or x.fld.Clear()
+				if as, ok := n.Ast.(*ast.AssignStmt); ok {
+					for _, l := range as.Lhs {
+						if fieldOfSelector(info, l) == fld {
+							return true
+						}
+					}
+				}
+				for _, cs := range n.Calls {
+					if strings.HasSuffix(cs.Key, ".Clear") {
+						if sel, ok := cs.Call.Fun.(*ast.SelectorExpr); ok && fieldOfSelector(info, sel.X) == fld {
+							return true
+						}
+					}
+				}
+				return false
+			}
+			ok := head != nil && len(g.Find(reset)) >= 1 && len(g.MustPrecede(reset, func(n *GNode) bool { return n == head })) == 0
+			c.Check(ok, r4, "refetchAndMerge: node cache `"+fld.Name()+"` is emptied before the replay", f.Lit.Pos(), "reset (make / Clear) dominates the replay loop",
+				"the transaction-local node cache `"+fld.Name()+"` is not emptied before the tracked actions are replayed: a stale ancestor read earlier routes a replayed add into a leaf that no longer owns the key range, where the duplicate check finds nothing (duplicate key in a unique store), and nothing validates the stale ancestor", nil)
+		}
 	}
 	// every replayed call's failure fails the merge
 	for _, k := range []string{kB3AddItem, kB3FindWithID, kB3RemoveCur, kB3UpdateCurWI} {
